@@ -88,6 +88,57 @@ def run_sort(res, tier, model_ok):
         res.broken.append(f"correspondence sort: {len(bad)} disagreements, e.g. input {c} impl {out} model {m}")
 
 
+def run_ops(res, tier, model_ok):
+    """the container under a history: diagnostics keep arriving between two readings (the lexer's, then the rules',
+    then a formatter's); every reading is the sorted list of everything added so far"""
+    import random
+    from norminette.errors import Errors, Error, Highlight
+    from impl import diag_tuple
+    rng = random.Random(res.seed + 211)
+    n = 3000 if tier == "thorough" else 400
+    reqs, want = [], []
+    for _ in range(n):
+        e = Errors()
+        added = []
+        hist = []
+        for _ in range(rng.randint(2, 5)):
+            batch = gen_errors(rng)[: rng.randint(1, 4)]
+            for d in batch:
+                e.add(Error(d[0], d[1], d[2], [Highlight(*h) for h in d[3]]))
+                added.append(d)
+            op = rng.choice(["iter", "iter", "status", "len", "iter-twice"])
+            hist.append((len(batch), op))
+            if op == "status":
+                _ = e.status
+                continue
+            if op == "len":
+                _ = len(e)
+                continue
+            out = [diag_tuple(x) for x in e]
+            if op == "iter-twice":
+                out = [diag_tuple(x) for x in e]
+            res.count("ops", 1)
+            res.nontriv(("ops", json.dumps(added)))
+            rp = {"kind": "ops", "diags": list(added), "history": list(hist), "observed": out}
+            pos = [(d[3][0][0], d[3][0][1]) for d in out]
+            if pos != sorted(pos):
+                res.report("sort:not-ascending", f"after the history {hist} the reading is not in ascending (line, col) order: {pos}", rp)
+            if sorted(map(json.dumps, out)) != sorted(map(json.dumps, added)):
+                res.report("sort:not-permutation", f"after the history {hist} the reading lost or duplicated a diagnostic", rp)
+            reqs.append({"op": "sort", "diags": [diag_req(d) for d in added]})
+            want.append((out, rp))
+    if model_ok and reqs:
+        bad = 0
+        first = None
+        for (out, rp), m in zip(want, Driver().batch(reqs)):
+            res.traces_validated += 1
+            if "error" in m or [diag_back(d) for d in m["sorted"]] != out:
+                bad += 1
+                first = first or rp
+        if bad:
+            res.broken.append(f"correspondence sort (readings inside a history of additions): {bad} disagreements, e.g. history {first['history']} diags {first['diags']}")
+
+
 def formatted(files):
     """files: list of (path, basename, diags) -> humanized text (colors on/off), json object"""
     from norminette.file import File
@@ -174,7 +225,8 @@ def oracle_file(res, name, src, r, catalogue):
     """C08 statement on one analysed file (r = impl.pipeline result with raw/sorted diags)."""
     if r["outcome"] != "ok":
         return
-    nlines = src.count("\n") + 1
+    # the lines of the file: a final newline ends the last line, it does not open another one
+    nlines = src.count("\n") + (0 if src.endswith("\n") else 1) if src else 1
     for d in r["diags"]:
         code, text, level, hs = d
         if not hs:
@@ -203,12 +255,16 @@ def run(res, tier, br, model_ok=True, search=False):
     from norminette.norm_error import errors as catalogue
     rng = random.Random(res.seed + 7)
     run_sort(res, tier, model_ok)
+    run_ops(res, tier, model_ok)
     n = 250 if tier == "thorough" else 25
     progs = families.programs(rng, n)
     viol = families.violating(rng, progs, per_prog=3 if tier == "thorough" else 2)
     files = [(p.name, p.text) for p in progs] + [(p.name, t) for p, op, site, t, line in viol]
     files += [("lex%d.c" % i, s) for i, s in enumerate(families.LEXICAL_SNIPPETS)]
     files += families.repo_samples() if tier == "thorough" else families.repo_samples()[::4]
+    # damaged texts: a lexical accident somewhere, ordinary diagnostics after it (down to the last line)
+    hosts = [(p.name, p.text) for p in progs[: (40 if tier == "thorough" else 8)]] + [(n_, s_) for n_, s_ in files if n_.startswith("lex")]
+    files += [(nm, t) for nm, t, what in families.damaged(rng, hosts, per_host=10 if tier == "thorough" else 6)]
     results = []
     for name, src in files:
         r = pipeline(name, src)
@@ -269,6 +325,22 @@ def replay(rp):
         r = pipeline(rp["name"], rp["src"])
         print("observed:", r.get("diags"))
         oracle_file(res, rp["name"], rp["src"], r, catalogue)
+    elif rp.get("kind") == "ops":
+        from norminette.errors import Errors, Error, Highlight
+        from impl import diag_tuple
+        e = Errors()
+        i = 0
+        out = []
+        for nb, op in rp["history"]:
+            for d in rp["diags"][i:i + nb]:
+                e.add(Error(d[0], d[1], d[2], [Highlight(*h) for h in d[3]]))
+            i += nb
+            if op.startswith("iter"):
+                out = [diag_tuple(x) for x in e]
+        pos = [(d[3][0][0], d[3][0][1]) for d in out]
+        print("history:", rp["history"]); print("last reading positions:", pos)
+        if pos != sorted(pos):
+            res.violations.append(("sort", "", {}))
     elif rp.get("kind") == "sort":
         out, st = impl_sorted(rp["diags"])
         print("observed order:", [(d[0], d[3][0][:2]) for d in out])
